@@ -15,6 +15,9 @@ VALID = ["https://example.com/", "https://example.com", "HTTPS://EXAMPLE.COM/Pat
          "custom:opaque", "file:///etc/passwd", "https://EXAMPLE.com/A?B=C#D", "https://example.com//double", "https://example.com/\\back",
          "ht\ttps://example.com/", " https://example.com/ ", "https://example.com/\x00", "https://0x7f.1/", "https://127.1/", "https://example.com./",
          "a:b", "A:b", "https:example.com", "https:/example.com", "https://example.com/" + "x" * 300]
+# long URLs: validity does not depend on length (boundaries of typical caps)
+VALID += ["https://example.com/" + "p" * (n - 20) for n in (255, 256, 1023, 1024, 2047, 2048, 2049, 4095, 4096, 4097, 8192, 65535, 65536, 65537, 100000)]
+VALID += ["https://example.com/?" + "q=1&" * 600, "HTTPS://EXAMPLE.com/" + "P" * 3000]
 INVALID = ["", "example.com", "/relative/path", "//example.com/x", "?q=1", "#frag", "https://", "http://[::1", "https://exa mple.com/",
            "1http://x/", "://x", "http://:80/", "https://example.com:99999/", "garbage \x00\x01", "https://[zz]/", "http//x", ":"]
 
@@ -34,7 +37,7 @@ def gen(tier, rng):
                 continue
             o = info[s]
             out.append(("URLT %s %s %s" % (ty, C.tb(s), "-" if o is None else o[0]), "valid" if o else "invalid"))
-    valid = [s for s in strings if info[s] is not None][:60]
+    valid = [s for s in strings if info[s] is not None and len(s) < 400][:60]
     for ti, ty in enumerate(TYPES):
         for i, a in enumerate(valid):
             for j, b in enumerate(valid):
